@@ -23,6 +23,8 @@ C13.i  distinct numbers give distinct nonces (C11.c).
 C13.j  initialize_from_persisted restores the file's fields verbatim.
 C13.k  the number that initialises an unknown window in unprotect is the incoming message's own partial
        IV, never the local request's (C12.f).
+C13.l  nothing initialize_from_persisted runs besides its verbatim stores (methods of the window it calls on
+       itself, transitively, found by the fields they store to) decides the restored window.
 
 Idioms accepted in _store (anything else stops the rule with an analysis error):
   * temp file: `h, name = tempfile.mkstemp(dir=D, ...)` (dir as keyword or third
@@ -1344,6 +1346,157 @@ def j_verbatim(ctx):
         ctx.ob("%s is restored exactly as persisted under %r" % (attr, key), ok, fi, st[0][1] if st else fi.node, construct=stmt_text(st[0][1]) if st else "initialize_from_persisted: %s" % attr)
 
 
+def _self_name(f):
+    a = f.node.args
+    names = [x.arg for x in a.posonlyargs + a.args]
+    return names[0] if names else None
+
+
+def _window_effects(prog, clsqn, g, fields, memo):
+    """The window fields that running method `g` may leave changed: those it stores to directly (any kind of store to
+    <self>.<field>) and those stored to by the methods of its class (and their overrides in subclasses) it calls on its
+    own receiver, transitively.  None when the receiver escapes to code this cannot follow (bare use of the receiver:
+    passed as an argument, aliased, setattr/vars; super(); a method taken as a value).  A call through a *data*
+    attribute (`self.strike_out_callback()`) runs code outside the class that holds no reference to the fields' owner
+    other than through the methods accounted for here; it contributes nothing."""
+    if g.qn in memo:
+        return memo[g.qn]
+    memo[g.qn] = set()  # recursion: the fixed point is reached through the other members of the cycle
+    me = _self_name(g)
+    out = set()
+    if me is None:
+        return out
+    for f in fields:
+        if stores_to(g.node, "%s.%s" % (me, f)):
+            out.add(f)
+    parents = {}
+    for n in ast.walk(g.node):
+        for ch in ast.iter_child_nodes(n):
+            parents[id(ch)] = n
+    for n in ast.walk(g.node):
+        if isinstance(n, ast.Call) and isinstance(n.func, ast.Name) and n.func.id == "super":
+            memo[g.qn] = None
+            return None
+        if not (isinstance(n, ast.Name) and n.id == me):
+            continue
+        par = parents.get(id(n))
+        if not (isinstance(par, ast.Attribute) and par.value is n):
+            memo[g.qn] = None
+            return None
+        if par.attr in fields:
+            continue
+        if par.attr in ("__dict__", "__setattr__", "__class__"):
+            memo[g.qn] = None
+            return None
+        targets = _methods_named(prog, clsqn, par.attr)
+        if not targets:
+            continue  # data attribute
+        gp = parents.get(id(par))
+        if not (isinstance(gp, ast.Call) and gp.func is par):
+            memo[g.qn] = None  # bound method (or property) taken as a value
+            return None
+        for t in targets:
+            sub = _window_effects(prog, clsqn, t, fields, memo)
+            if sub is None:
+                memo[g.qn] = None
+                return None
+            out |= sub
+    memo[g.qn] = out
+    return out
+
+
+def _methods_named(prog, clsqn, name):
+    """every function `recv.<name>` may denote for a receiver of class clsqn or one of its subclasses"""
+    out = []
+    for q in [clsqn] + [s for s in prog.subclasses(clsqn) if s != clsqn]:
+        m = prog.lookup_method(q, name)
+        if m is not None and not any(m is x for x in out):
+            out.append(m)
+    return out
+
+
+@R.clause("C13.l", "restoring a persisted window changes the window by nothing but the verbatim stores: a method of the window that initialize_from_persisted runs and that sets _index/_bitfield itself is overwritten by the verbatim stores on every path to the return (a null window stays uninitialised whatever else the restore does)")
+def l_restore_writers(ctx):
+    """Added after an independently written change (fifth round: validation of the persisted window) made
+    initialize_from_persisted call self.initialize_empty() and return when the file's index and bitfield are both null:
+    the window a clean stop writes for a context still waiting for its Echo exchange (unclean stop -> 'unknown' ->
+    uninitialised -> clean stop persists None/None) came back initialised and empty, and every request seen before the
+    crash was accepted again without Echo.  C13.j looks at the stores initialize_from_persisted makes itself; the
+    necessary condition is about the window's state when the restore *returns*: on every normally returning path the
+    last thing that set _index (_bitfield) is a verbatim store of the file's entry.  So the invariant is taken over ALL
+    writers of the two fields that run as part of the restore: the function's own stores (C13.j: each verbatim) and,
+    here, every method of the window's class (or an override) it calls on itself, transitively -- found by what they
+    store to, not by name.  Such a call is harmless exactly when every non-exceptional path from it to the normal exit
+    passes the verbatim store of each field it may set (default-then-overwrite); a path that raises restores nothing and
+    _load turns it into LoadError.  Queries (is_initialized), reads of other fields (the size), validation that raises
+    and calls through data attributes do not write the fields and are not looked at.
+
+    Refused (not reported): the receiver escaping (aliased, passed on, super()), a method taken as a value, and a
+    delegation guarded by an *equality* of a persisted entry with a constant (`if persisted["index"] == 0 and ...:
+    self.initialize_empty()` stores what the file says; deciding that needs the callee's values)."""
+    prog = ctx.prog
+    fi = prog.func("oscore.ReplayWindow.initialize_from_persisted")
+    ctx.need(fi.cls is not None, "initialize_from_persisted is not a method")
+    clsqn = fi.cls.qn
+    p = params(fi)[0]
+    me = _self_name(fi)
+    fields = ("_index", "_bitfield")
+    cfg = cfg_of(fi)
+    cs = _cs(ctx, fi)
+    fas = field_assigns(fi.node)
+    verb = {}
+    for f, key in zip(fields, ("index", "bitfield")):
+        verb[f] = set()
+        for ch, v, n in fas:
+            if ch == "%s.%s" % (me, f) and v is not None and is_verbatim_read(deep_resolve(fi.node, v, keep={p}), p, key, cs):
+                verb[f] |= {x for x in cfg.locate(n) if cfg.is_reachable(x)}
+    memo = {fi.qn: set()}  # recursion into the restore itself adds nothing that is not looked at here
+    parents = {}
+    for n in ast.walk(fi.node):
+        for c in ast.iter_child_nodes(n):
+            parents[id(c)] = n
+    ctx.need(not any(isinstance(n, ast.Call) and isinstance(n.func, ast.Name) and n.func.id == "super" for n in ast.walk(fi.node)),
+             "initialize_from_persisted delegates through super()")
+    found = 0
+    for n in ast.walk(fi.node):
+        if not (isinstance(n, ast.Name) and n.id == me):
+            continue
+        par = parents.get(id(n))
+        ctx.need(isinstance(par, ast.Attribute) and par.value is n, "initialize_from_persisted hands the window itself to other code (%s)" % stmt_text(par if par is not None else n, 60))
+        if par.attr in fields:
+            continue
+        ctx.need(par.attr not in ("__dict__", "__setattr__", "__class__"), "initialize_from_persisted writes the window reflectively")
+        targets = _methods_named(prog, clsqn, par.attr)
+        if not targets:
+            continue
+        call = parents.get(id(par))
+        ctx.need(isinstance(call, ast.Call) and call.func is par, "initialize_from_persisted takes the window method %s as a value" % par.attr)
+        eff = set()
+        for t in targets:
+            sub = _window_effects(prog, clsqn, t, fields, memo)
+            ctx.need(sub is not None, "ReplayWindow.%s hands the window to code the rule cannot follow" % par.attr)
+            eff |= sub
+        if not eff:
+            continue
+        found += 1
+        nids = [x for x in cfg.locate(call) if cfg.is_reachable(x)]
+        left = sorted(f for f in eff if not all(cfg.must_pass(x, verb[f]) for x in nids))
+        if left:
+            # value-dependent delegation: under `persisted[k] == <constant>` the callee may store just what the file says
+            for x in nids:
+                for test, pol, _pid in cfg.guards(x):
+                    if not pol or not isinstance(test, ast.Compare) or len(test.ops) != 1 or not isinstance(test.ops[0], ast.Eq):
+                        continue
+                    sides = [deep_resolve(fi.node, s, keep={p}) for s in (test.left, test.comparators[0])]
+                    ctx.need(not any(key_read(s, p, cs) is not None for s in sides),
+                             "initialize_from_persisted delegates to %s under an equality test of a persisted entry" % par.attr)
+        ctx.ob("what initialize_from_persisted runs besides its verbatim stores does not decide the restored window", not left, fi, call,
+               detail="%s() sets %s and a path from it returns without the verbatim store of the file's entry: the window is then not what was persisted (a null window -- clean stop while waiting for Echo -- must stay uninitialised)" % (par.attr, ", ".join(left)) if left else None)
+    if not found:
+        ctx.ob("initialize_from_persisted runs no other writer of the window's fields", True, fi, fi.node, construct="initialize_from_persisted: delegated writers")
+    ctx.note("%d field-writing method call(s) inside initialize_from_persisted" % found)
+
+
 @R.clause("C13.k", "an unknown (uninitialised) window is never initialised from this node's own numbers: the number handed to the replay window in unprotect is the incoming message's OWN partial IV, a message without one contributes nothing (shared with C12.f)")
 def k_shared(ctx):
     """Added after an independently written breaking change (fourth round) let the response arm of the recovery in
@@ -1510,6 +1663,13 @@ R.seed("C13.c", F_, "        data = {\"next-to-send\": self.sequence_number_pers
        "        data = dict([(\"next-to-send\", self.sender_sequence_number)], received=self.recipient_replay_window.persist() if self.replay_window_persisted else \"unknown\")\n\n", "dict(...) spelling of the payload with the counter instead of the bound")
 R.seed("C13.d", F_, "        return {\"index\": self._index, \"bitfield\": self._bitfield}", "        return dict(index=self._bitfield, bitfield=self._index)", "fields swapped in persist, dict(k=v) spelling")
 R.seed("C13.j", F_, "        self._index = persisted[\"index\"]\n        self._bitfield = persisted[\"bitfield\"]\n", "        self._index, self._bitfield = persisted[\"index\"] or 0, persisted[\"bitfield\"] or 0\n", "parallel assignment that coerces null to 0")
+_RESTORE = "        self._index = persisted[\"index\"]\n        self._bitfield = persisted[\"bitfield\"]\n"
+R.seed("C13.l", F_, _RESTORE, "        self.initialize_empty()\n        if persisted[\"index\"] is not None:\n            self._index = persisted[\"index\"]\n            self._bitfield = persisted[\"bitfield\"]\n",
+       "default-then-overwrite that skips the overwrite for a null window: it comes back initialised and empty")
+R.seed("C13.l", F_, _RESTORE, _RESTORE + "        if not self.is_initialized():\n            self.initialize_from_freshlyseen(0)\n",
+       "a null window is 'repaired' after the verbatim stores by another initialiser")
+R.seed("C13.l", F_, _RESTORE, "        if not persisted:\n            return self.initialize_empty()\n" + _RESTORE,
+       "an empty/None persisted object is taken for an empty window (early return through the other initialiser)")
 R.seed("C13.f", F_, "        self._store()\n\n        del self.sender_key\n        del self.recipient_key\n\n        os.unlink(self.lockfile.lock_file)\n        self.lockfile.release()\n\n        self.lockfile = None\n",
        "        del self.sender_key\n        del self.recipient_key\n\n        lock = self.lockfile\n        self.lockfile = None\n        os.unlink(lock.lock_file)\n        lock.release()\n        self._store()\n", "lock released through a local alias before the final store")
 
